@@ -178,13 +178,22 @@ def single_preemption_schedules(lines0: int, lines1: int, limit: int):
     return out
 
 
+HANG = ["no result: a call did not return within 40 s (hang / deadlock)"]
+
+
 def search(ops: list[list[str]], limit: int = 120, budget_s: float = 25.0):
     """-> (number of schedules run, first (schedule, results, expected) whose results differ from alone)"""
     t_end = time.time() + budget_s
     expected = alone(ops)
     probe = in_child(lambda: run_schedule(ops, []))
     if probe is None:
-        return 0, None
+        probe = in_child(lambda: run_schedule(ops, []), timeout=40)
+        if probe is None and all(e is not None for e in expected):
+            # each call returns when made alone (`alone` above), but not when the two threads run one
+            # after the other: a call that never returns is not "the answer it would get alone"
+            return 1, ([], HANG, expected)
+        if probe is None:
+            return 0, None
     lines = probe[1]
     n = 0
     for sch in single_preemption_schedules(lines[0], lines[1], limit):
@@ -193,6 +202,9 @@ def search(ops: list[list[str]], limit: int = 120, budget_s: float = 25.0):
         res = in_child(lambda sch=sch: run_schedule(ops, sch), timeout=8)
         n += 1
         if res is None:
+            res = in_child(lambda sch=sch: run_schedule(ops, sch), timeout=40)
+            if res is None and all(e is not None for e in expected):
+                return n, (sch, HANG, expected)
             continue
         if res[0] != expected:
             # compress the schedule for the replay
